@@ -156,8 +156,9 @@ Definition ops_touch_only_named_ids_statement : Prop :=
   (forall s id now,
      st_kind s = Linear -> no_expired s now -> ids_not_varlike s -> is_var id = false ->
      forall k, lost_between s (fst (st_Rem s id now)) k -> Clo s id k) /\
-  (* reads of a state without expired facts change nothing at all *)
-  (forall s now, no_expired s now ->
+  (* reads of a state without expired facts (and without a pending purge: the
+     list of noted ids is empty between any two operations) change nothing at all *)
+  (forall s now, no_expired s now -> st_pending s = [] ->
      (forall id, fst (st_get s id now) = s) /\
      (forall p, fst (st_search s p now) = s) /\
      (forall ev, fst (st_find_rules s ev now) = s)).
@@ -210,12 +211,15 @@ Definition get_visible_iff_statement : Prop :=
 Definition removal_never_errs_without_failure_statement : Prop :=
   forall s id now, st_fail s = None -> exists had, snd (st_rem s id now) = Ok had.
 
+(** An expired item that a Get meets is never returned: the answer is "not
+    found" (whatever the storage does: the error of a failed purge is logged),
+    and when no storage call fails the item has left the memory and the
+    storage by the time the Get returns. *)
 Definition purged_once_seen_statement : Prop :=
   forall s id now fact,
     alookup id (st_facts s) = Some fact -> fact_expired fact now = true ->
-    (forall f, snd (st_get s id now) <> Ok f) /\
-    ((st_fail s = None \/ exists had, snd (st_rem s id now) = Ok had) ->
-     snd (st_get s id now) = Err "notfound" /\
+    snd (st_get s id now) = Err "notfound" /\
+    (st_fail s = None ->
      alookup id (st_facts (fst (st_get s id now))) = None /\
      alookup id (st_store (fst (st_get s id now))) = None).
 
